@@ -611,8 +611,15 @@ impl RingRun {
         self.port_addr.get(&port).copied()
     }
 
+    /// Online from the user's point of view: set online, being polled, and the station did not
+    /// withdraw by itself (a station that twice sees its own address as a source goes offline on
+    /// purpose — duplicate-address protection; `connectivity_state()` tells the user).
+    pub fn is_up(&self, i: usize) -> bool {
+        self.online[i] && self.world.stations[i].running && self.world.stations[i].fdl.connectivity_state().is_online()
+    }
+
     pub fn online_addrs(&self) -> Vec<u8> {
-        let mut v: Vec<u8> = (0..self.online.len()).filter(|i| self.online[*i] && self.world.stations[*i].running).map(|i| self.world.stations[i].addr).collect();
+        let mut v: Vec<u8> = (0..self.online.len()).filter(|i| self.is_up(*i)).map(|i| self.world.stations[i].addr).collect();
         v.sort();
         v
     }
@@ -620,7 +627,7 @@ impl RingRun {
     pub fn state_ok(&self) -> Result<(), String> {
         let on = self.online_addrs();
         for (i, st) in self.world.stations.iter().enumerate() {
-            if !(self.online[i] && st.running) {
+            if !self.is_up(i) {
                 continue;
             }
             let Some((_, s)) = self.snaps[i].last() else {
@@ -887,7 +894,9 @@ pub fn run_to_convergence(rep: &mut Report, run: &mut RingRun, prop: &str, want_
     let mut tmp = Report::default();
     tmp.cur_case = rep.cur_case.clone();
     tmp.verbose = rep.verbose;
-    let r = run_to_convergence_inner(&mut tmp, run, prop, want_rot);
+    let t_all_online = run.cfg.stations.iter().map(|s| s.online_at).max().unwrap();
+    let bound = run.cfg.b_conv();
+    let r = converge(&mut tmp, run, prop, t_all_online, bound, 0, want_rot);
     if strict {
         for v in tmp.violations {
             rep.violation(v.sig, v.what);
@@ -903,80 +912,142 @@ pub fn run_to_convergence(rep: &mut Report, run: &mut RingRun, prop: &str, want_
     r
 }
 
-fn run_to_convergence_inner(rep: &mut Report, run: &mut RingRun, prop: &str, want_rot: u64) -> Option<ConvResult> {
+/// Core of the bounded-convergence rule.  `t_all_online` = T0 (last population change / last
+/// disturbance), `bound` = B_conv / B_rec.  Until `grace_until` a ring that looked converged may
+/// fall apart again without that being a stability violation (aftermath of a disturbance).
+pub fn converge(rep: &mut Report, run: &mut RingRun, prop: &str, t_all_online: Us, bound: Us, grace_until: Us, want_rot: u64) -> Option<ConvResult> {
     let cfg = run.cfg.clone();
-    let t_all_online = cfg.stations.iter().map(|s| s.online_at).max().unwrap();
-    let bound = cfg.b_conv();
     let step = (cfg.stations.len() as i64 * cfg.t_visit()).max(1000);
     let mut converged_at: Option<Us> = None;
+    // start of the current window in which state samples and token flow were all proper
     let mut ok_since: Option<Us> = None;
+    // incremental scan of the trace
+    let mut scan_idx: usize = run.world.bus.borrow().trace.len();
+    let mut last_token: Option<(u8, u8)> = None;
+    let mut rots_in_window: u64 = 0;
+    let mut rots_since_converged: u64 = 0;
     let hard_end = t_all_online + bound + (want_rot as i64 + 10) * step * 2;
+    let mut t_cursor = run.world.now;
     loop {
-        let t_next = run.world.now + step;
+        // (the world's clock only moves with events; keep an own cursor so that quiet periods pass)
+        let t_next = t_cursor.max(run.world.now) + step;
         run.run_until(t_next);
+        t_cursor = t_next;
         if let Some((i, p)) = run.world.any_panic() {
             let addr = run.world.stations[i].addr;
             rep.violation(format!("{}/panic/{}", prop, p.class()), format!("#{} panicked at {}us: {} ({})", addr, run.world.now, p.message, cfg.json().render()));
             return None;
         }
-        let now = run.world.now;
+        let now = t_cursor;
         if now < t_all_online {
+            scan_idx = run.world.bus.borrow().trace.len();
             continue;
         }
         let on = run.online_addrs();
+        if on.is_empty() {
+            return None;
+        }
         let ok = run.state_ok();
-        match (&ok, ok_since) {
-            (Ok(()), None) => ok_since = Some(now),
-            (Err(_), Some(_)) => {
+        let mut bad: Option<(Us, String, &'static str)> = None;
+        if let Err(e) = &ok {
+            bad = Some((now, e.clone(), "state"));
+        }
+        // scan the new frames
+        {
+            let bus = run.world.bus.borrow();
+            let low = on[0];
+            while scan_idx < bus.trace.len() {
+                let f = &bus.trace[scan_idx];
+                scan_idx += 1;
+                let mut frame_bad: Option<String> = None;
+                match &f.decoded {
+                    None => frame_bad = Some("undecodable frame".into()),
+                    Some(RTel::Token { da, sa }) => {
+                        match on.iter().position(|a| a == sa) {
+                            None => frame_bad = Some(format!("token sent by #{} which is not online", sa)),
+                            Some(k) => {
+                                let succ = on[(k + 1) % on.len()];
+                                if *da != succ {
+                                    frame_bad = Some(format!("token {}->{} but the successor of #{} is #{}", sa, da, sa, succ));
+                                } else if last_token == Some((*sa, *da)) && on.len() > 1 {
+                                    frame_bad = Some(format!("token {}->{} repeated (retry)", sa, da));
+                                }
+                            }
+                        }
+                        last_token = Some((*sa, *da));
+                        if frame_bad.is_none() && *sa == low {
+                            rots_in_window += 1;
+                            if converged_at.is_some() {
+                                rots_since_converged += 1;
+                            }
+                        }
+                    }
+                    Some(_) => {}
+                }
+                if f.collided && frame_bad.is_none() {
+                    frame_bad = Some("collision".into());
+                }
+                if let Some(why) = frame_bad {
+                    // the window restarts after this frame
+                    if converged_at.is_some() && f.start > grace_until {
+                        rep.violation(format!("{}/stability/token-flow", prop), format!("ring had converged at {}us but at {}us: {} ({})", converged_at.unwrap(), f.start, why, cfg.json().render()));
+                        return None;
+                    }
+                    if converged_at.is_some() {
+                        converged_at = None;
+                        rep.count(&format!("{}_reconverged_after_aftermath", prop));
+                    }
+                    rots_in_window = 0;
+                    rots_since_converged = 0;
+                    if ok_since.is_some() {
+                        ok_since = Some(f.start + 1);
+                    }
+                }
+            }
+        }
+        match (&bad, ok_since) {
+            (None, None) => {
+                ok_since = Some(now);
+                rots_in_window = 0;
+            }
+            (Some((t, why, _)), _) => {
                 ok_since = None;
-                if converged_at.is_some() {
-                    rep.violation(
-                        format!("{}/stability/state", prop),
-                        format!("ring had converged at {}us but at {}us: {} ({})", converged_at.unwrap(), now, ok.clone().unwrap_err(), cfg.json().render()),
-                    );
+                rots_in_window = 0;
+                rots_since_converged = 0;
+                if converged_at.is_some() && *t <= grace_until {
+                    converged_at = None;
+                    rep.count(&format!("{}_reconverged_after_aftermath", prop));
+                } else if converged_at.is_some() {
+                    rep.violation(format!("{}/stability/state", prop), format!("ring had converged at {}us but at {}us: {} ({})", converged_at.unwrap(), t, why, cfg.json().render()));
                     return None;
                 }
             }
             _ => {}
         }
         if let Some(since) = ok_since {
-            // token flow proper since `since`?
-            match token_flow_bad_after(run, since, &on) {
-                Some((t_bad, why)) => {
-                    if converged_at.is_some() {
-                        rep.violation(format!("{}/stability/token-flow", prop), format!("ring had converged at {}us but at {}us: {} ({})", converged_at.unwrap(), t_bad, why, cfg.json().render()));
-                        return None;
-                    }
-                    // not yet converged: restart the window after the bad frame
-                    ok_since = Some(t_bad + 1);
-                }
-                None => {
-                    let rots = rotations_between(run, since, now, &on);
-                    if converged_at.is_none() && rots >= 3 {
-                        converged_at = Some(since);
-                    }
-                    if let Some(c) = converged_at {
-                        let stable = rotations_between(run, c, now, &on);
-                        if stable >= want_rot + 3 {
-                            return Some(ConvResult {
-                                converged_at: Some(c),
-                                t0: t_all_online,
-                                bound,
-                                stable_rotations: stable,
-                            });
-                        }
-                    }
+            if converged_at.is_none() && rots_in_window >= 3 {
+                converged_at = Some(since);
+                rots_since_converged = rots_in_window;
+            }
+            if let Some(c) = converged_at {
+                if rots_since_converged >= want_rot + 3 {
+                    return Some(ConvResult {
+                        converged_at: Some(c),
+                        t0: t_all_online,
+                        bound,
+                        stable_rotations: rots_since_converged,
+                    });
                 }
             }
         }
         if converged_at.is_none() && now > t_all_online + bound {
             let why = match run.state_ok() {
                 Err(e) => e,
-                Ok(()) => "token does not circulate in ascending order".to_string(),
+                Ok(()) => "token does not circulate in ascending order without retries".to_string(),
             };
             rep.violation(
                 format!("{}/not-converged/{}", prop, cfg.class),
-                format!("ring did not converge within the bound ({}us after the last set_online at {}us): {} ({})", bound, t_all_online, why, cfg.json().render()),
+                format!("ring did not converge within the bound ({}us after T0 = {}us): {} ({})", bound, t_all_online, why, cfg.json().render()),
             );
             return None;
         }
@@ -1081,6 +1152,8 @@ pub fn dump_trace(run: &RingRun, last: usize) {
     for (i, s) in run.snaps.iter().enumerate() {
         if let Some((t, s)) = s.last() {
             eprintln!("  station #{} last change {}us: {:?}", run.world.stations[i].addr, t, s);
+            let st = &run.world.stations[i];
+            eprintln!("     probe {:?} running {} polls {} rx-pending {}", st.fdl.verif_probe(), st.running, st.polls, hex(&bus.peek_rx(st.phy.port)));
         }
     }
 }
